@@ -363,15 +363,23 @@ Build910(f) == <<"20", "21", "25", "32A=USD:1000">> \o (IF f.h50 THEN <<"50K">> 
 (* ================================ MT920 ================================== *)
 F34 == {"none", "one", "oneD", "oneC", "DC", "CD", "DD", "nomark2"}
 \* "near": a different currency that shares its first two letters (USD / USN) -- C3 compares whole codes
-Facts920 == {[c12 |-> a, f34 |-> b, cur2 |-> c] : a \in {"940", "941", "942", "950", "103"}, b \in F34, c \in {"same", "diff", "near"}}
+\* pre: a sequence standing BEFORE the one the other facts describe -- none, a well-formed one, one asking for an
+\* unknown message type (T88), one asking for MT942 without a floor limit (C22): violations of several rules in
+\* several sequences at once (what each rule group reports must not depend on what an earlier one found)
+Pre920 == {"none", "ok", "t88", "c22"}
+Facts920 == {[c12 |-> a, f34 |-> b, cur2 |-> c, pre |-> "none"] : a \in {"940", "941", "942", "950", "103"}, b \in F34, c \in {"same", "diff", "near"}}
+       \cup {[c12 |-> a, f34 |-> b, cur2 |-> "diff", pre |-> p] : a \in {"940", "942", "103"}, b \in {"none", "one", "oneD", "DC", "DD"}, p \in Pre920 \ {"none"}}
 Expected920(f) ==
-     (IF f.c12 \notin {"940", "941", "942", "950"} THEN {"T88"} ELSE {})
-  \cup (IF f.c12 = "942" /\ f.f34 = "none" THEN {"C22"} ELSE {})
+     (IF f.c12 \notin {"940", "941", "942", "950"} \/ f.pre = "t88" THEN {"T88"} ELSE {})
+  \cup (IF (f.c12 = "942" /\ f.f34 = "none") \/ f.pre = "c22" THEN {"C22"} ELSE {})
   \cup (IF f.f34 \in {"oneD", "oneC", "CD", "DD", "nomark2"} THEN {"C23"} ELSE {})
   \cup (IF f.f34 \in {"DC", "CD", "DD", "nomark2"} /\ f.cur2 # "same" THEN {"C40"} ELSE {})
 Build920(f) ==
   LET c2 == IF f.cur2 = "diff" THEN "EUR" ELSE IF f.cur2 = "near" THEN "USN" ELSE "USD" IN
-  <<"20", "12=" \o f.c12, "25">>
+  <<"20">>
+  \o (CASE f.pre = "none" -> <<>> [] f.pre = "ok" -> <<"12=940", "25">> [] f.pre = "t88" -> <<"12=999", "25">>
+        [] f.pre = "c22" -> <<"12=942", "25">>)
+  \o <<"12=" \o f.c12, "25">>
   \o (CASE f.f34 = "none" -> <<>> [] f.f34 = "one" -> <<"34F=USD::10">> [] f.f34 = "oneD" -> <<"34F=USD:D:10">>
         [] f.f34 = "oneC" -> <<"34F=USD:C:10">> [] f.f34 = "DC" -> <<"34F=USD:D:10", "34F=" \o c2 \o ":C:10">>
         [] f.f34 = "CD" -> <<"34F=USD:C:10", "34F=" \o c2 \o ":D:10">> [] f.f34 = "DD" -> <<"34F=USD:D:10", "34F=" \o c2 \o ":D:10">>
